@@ -130,9 +130,22 @@ var $methodVal = (recv, name) => {
         // The method only forwards to the implementation attached to another form of
         // the receiver (value or pointer). The receiver is evaluated now, and binding
         // the implementation itself keeps the call depth that recover() expects.
-        while (method.$fwd !== undefined) {
+        while (method.$fwd !== undefined && !method.$late) {
             recv = method.$fwd.call(recv);
             method = recv[name];
+        }
+        if (method.$late) {
+            // The receiver is behind a pointer and is loaded when the method is called.
+            var ptr = recv, fwd = method.$fwd;
+            return (...args) => {
+                $stackDepthOffset--;
+                try {
+                    var r = fwd.call(ptr);
+                    return r[name](...args);
+                } finally {
+                    $stackDepthOffset++;
+                }
+            };
         }
         return method.bind(recv);
     }
